@@ -263,9 +263,10 @@ def coq_eval(scratch, ev, cases, tag="e", shard=800):
             lines.append("Require Import %s." % r)
         if ev.get("prelude"):
             lines.append(ev["prelude"])
-        lines.append("Definition cases : list (N * (%s)) := [" % ev["case_type"])
-        lines.append(";\n".join("  (%d%%N, %s)" % (c["id"], c["coq"]) for c in sh_cases))
-        lines.append("].")
+        # cons chains elaborate much faster than the [a; b; ...] notation on long lists
+        lines.append("Definition cases : list (N * (%s)) :=" % ev["case_type"])
+        lines.append("\n".join("  (%d%%N, %s) ::" % (c["id"], c["coq"]) for c in sh_cases))
+        lines.append("  nil.")
         lines.append("Definition M := Eval vm_compute in map fst (filter (fun c => %s (snd c)) cases)." % ev["mismatch"])
         lines.append("Definition V := Eval vm_compute in map fst (filter (fun c => %s (snd c)) cases)." % ev["monitor"])
         lines.append('Set Printing Width 1000000. Set Printing Depth 1000000.')
